@@ -307,9 +307,10 @@ class StandardFuncs(SnowfakeryPlugin):
             when: FieldDefinition = None,
         ):
             """Supports the choice: sub-items used in `random_choice` or `if`"""
-            if probability:
+            if probability is not None:
                 probability = parse_weight_str(self.context, probability)
-            return probability or when, pick
+                return probability, pick
+            return when, pick
 
         @memorable
         def random_reference(
